@@ -185,8 +185,10 @@ fn same_outcome(a: &StepOut, b: &StepOut) -> bool {
 }
 
 fn masked(mut s: foca::VerifSnapshot<Id>) -> foca::VerifSnapshot<Id> {
-    // scratch: cleared before every use
+    // scratch: cleared before every use (see core::obs_snapshot)
     s.updates_buf_len = 0;
+    s.updates_buf.clear();
+    s.choice_buf.clear();
     s
 }
 
